@@ -162,7 +162,7 @@ def run(tier, seed):
     chk = Check("C15", tier, seed, "exploration")
     n, fails = iskwarg_complete()
     chk.add_rule("C15.P.iskwarg", not fails, [f"{n} (function, name) pairs incl. functools.wraps-decorated functions sharing one code object"], fails[:3])
-    m = 8 if tier == "quick" else 80
+    m = 8 if tier == "quick" else 400
     res = [x for r in harness.pmap(_work, [(seed, i) for i in range(m)]) for x in r] + extra()
     fails = [r for r in res if r[0] != "ok"]
     seen = set()
